@@ -122,7 +122,7 @@ type twin struct {
 	bg   int64
 }
 
-func startTwin(seed uint64, tie, rts bool, idx int, bg bool, name string) (*twin, error) {
+func startTwin(seed uint64, tie, rts, upg bool, idx int, bg bool, name string) (*twin, error) {
 	exe, err := os.Executable()
 	if err != nil {
 		return nil, err
@@ -133,6 +133,9 @@ func startTwin(seed uint64, tie, rts bool, idx int, bg bool, name string) (*twin
 	}
 	if rts {
 		args = append(args, "-runtimes")
+	}
+	if upg {
+		args = append(args, "-upgrade")
 	}
 	if !bg {
 		args = append(args, "-nobg")
@@ -304,10 +307,10 @@ func (c *c01Run) twinDumps() error {
 
 // ---------- child side ----------
 
-func replicaMain(seed uint64, tie, rts bool, idx int, bg bool) {
+func replicaMain(seed uint64, tie, rts, upg bool, idx int, bg bool) {
 	out := json.NewEncoder(os.Stdout)
 	dec := json.NewDecoder(bufio.NewReaderSize(os.Stdin, 1<<20))
-	c := &c01Run{seed: seed, tie: tie, bg: bg, sum: coqout.NewSummary("child")}
+	c := &c01Run{seed: seed, tie: tie, upg: upg, bg: bg, sum: coqout.NewSummary("child")}
 	gopts := c01GenesisOpts(seed, tie)
 	if rts {
 		gopts.EpochInterval = 3
